@@ -67,8 +67,7 @@ TraceNext == /\ l <= Len(Traces[tid])
 TraceSpec == TraceInit /\ [][TraceNext]_tvars
 
 Progress(t) == TLCGet(t)
-TraceAccepted ==
-    \A t \in 1..Len(Traces) :
-        \/ Progress(t) = Len(Traces[t]) + 1
-        \/ PrintT(<<"REJECTED", t, Progress(t)>>) /\ FALSE
+TraceAccepted ==       \* every trace consumed completely; all the others are printed (not only the first)
+    LET bad == {t \in 1..Len(Traces) : Progress(t) # Len(Traces[t]) + 1}
+    IN (\A t \in bad : PrintT(<<"REJECTED", t, Progress(t)>>)) /\ bad = {}
 =============================================================================
